@@ -85,6 +85,14 @@ Definition is_ignore_dir (base_name : string) : bool :=
 (* BuildBaseKey: the names of base_cloc.json in file order *)
 Definition build_base_key (base : list lsum) : list string := map ls_name base.
 
+(* MergeDirKeys: the keys, then the languages that only a per-directory json names, in the order
+   of outputFiles (= ReadDir order of the reported directories) and of each json's summaries *)
+Definition add_keys (keys news : list string) : list string :=
+  fold_left (fun ks key => if str_mem key ks then ks else (ks ++ [key])%list) news keys.
+
+Definition merge_dir_keys (keys : list string) (files : list (string * list lsum)) : list string :=
+  fold_left (fun ks file => add_keys ks (build_base_key (snd file))) files keys.
+
 (* SortLangeByCode: every summary's Files by Code, larger first (sort.Slice; stable stand-in) *)
 Definition sort_files_by_code (fs : list (string * nat)) : list (string * nat) :=
   sort_by (fun a b => Nat.leb (snd b) (snd a)) fs.
@@ -163,12 +171,16 @@ Definition build_cloc_csv_data (lm : gomap (gomap lsum)) (keys : list string) : 
 (* ------------------------------------------------------------------ cmd/cloc.go: processByDirectory *)
 Definition base_keys (o : copts) (t : ctree) : list string := build_base_key (scc_run o [] t).
 
+(* keys = BuildBaseKey(base_cloc.json), then MergeDirKeys(keys, outputFiles)  (fix 5353339) *)
+Definition header_keys (o : copts) (t : ctree) : list string :=
+  merge_dir_keys (base_keys o t) (process_dirs o t).
+
 Definition language_map (o : copts) (t : ctree) : gomap (gomap lsum) :=
-  fold_left (build_language_map (base_keys o t)) (process_dirs o t) [].
+  fold_left (build_language_map (header_keys o t)) (process_dirs o t) [].
 
 (* the records of coca_reporter/cloc.csv: header first, then the rows in map order *)
 Definition process_by_directory (o : copts) (t : ctree) : list (list string) :=
-  build_cloc_csv_data (language_map o t) (base_keys o t).
+  build_cloc_csv_data (language_map o t) (header_keys o t).
 
 (* ------------------------------------------------------------------ cmd/cloc.go: processTopFile *)
 (* strings.TrimLeft(s, cutset) *)
